@@ -55,6 +55,32 @@ OBJ = lambda props, **kw: {"type": "object", "properties": props, **kw}
 
 
 # ====================================================================== documents with seeded breakage
+def prefix_dependant(kind, target):
+    if kind == "prop":
+        return OBJ({"item": {"$ref": REF + target}})
+    if kind == "items":
+        return OBJ({"items": {"type": "array", "items": {"$ref": REF + target}}})
+    if kind == "allof":
+        return {"allOf": [{"$ref": REF + target}, OBJ({"own": {"type": "boolean"}})]}
+    return OBJ({"k": {"type": "string"}}, additionalProperties={"$ref": REF + target})
+
+
+def prefix_docs():
+    """deterministic documents: for every recorded edge kind, a dependant whose name is a proper prefix of the broken schema's name,
+    alone and in a chain (A <- AB <- ABC broken), declared before and after it"""
+    out = []
+    for kind in ("prop", "items", "allof", "addl"):
+        for order in (0, 1):
+            S = {"OrderItem": OBJ({"n": {"type": "integer"}, "broken": {"type": "array"}}), "Order": prefix_dependant(kind, "OrderItem"),
+                 "PetStore": OBJ({"broken": {"$ref": REF + "Nowhere"}}), "Pet": prefix_dependant(kind, "PetStore"), "Pe": prefix_dependant("prop", "Pet"),
+                 "ABC": OBJ({"broken": {"enum": [1, "x"]}}), "AB": prefix_dependant(kind, "ABC"), "A": prefix_dependant(kind, "AB"),
+                 "Other": OBJ({"fine": {"type": "string"}})}
+            if order:
+                S = dict(reversed(list(S.items())))
+            out.append((f"prefix:{kind}:{order}", {"openapi": "3.1.0", "info": {"title": "t", "version": "1"}, "paths": {}, "components": {"schemas": S}}))
+    return out
+
+
 def gen_census_doc(rng: random.Random, size=None):
     n = size or rng.randint(5, 12)
     names = [f"Model{i}" for i in range(n)]
@@ -123,6 +149,18 @@ def gen_census_doc(rng: random.Random, size=None):
         S["Rows"] = {"type": "array", "items": {"$ref": REF + rng.choice(names)}}
     if "wrap" in extras:
         S["Same"] = {"allOf": [{"$ref": REF + rng.choice(names)}]}
+    # prefix-related names: the DEPENDANT's name is a proper prefix of the failing schema's name (Order -> broken OrderItem), so that
+    # its reference path is a substring of one the cascade has already listed; every removed schema must still be named as a whole
+    if "prefix" in extras or rng.random() < 0.35:
+        for short, long_ in rng.sample([("Order", "OrderItem"), ("Pet", "PetStore"), ("Q", "QX"), ("Model1", "Model1Extra")], rng.randint(1, 2)):
+            if short in S or long_ in S:
+                continue
+            S[long_] = OBJ({"n": {"type": "integer"}, "broken": rng.choice([{"type": "array"}, {"$ref": REF + "Nowhere"}])})
+            k = rng.choice(["prop", "items", "allof", "addl"])
+            S[short] = prefix_dependant(k, long_)
+            if rng.random() < 0.5:      # distance 2: a second dependant whose name is again a prefix of the first one's
+                S[short[:-1] or "P"] = prefix_dependant(rng.choice(["prop", "items"]), short) if (short[:-1] or "P") not in S else S[short[:-1] or "P"]
+            notes.append(("prefix", short, long_))
     items = list(S.items())
     rng.shuffle(items)
     S = dict(items)
@@ -603,6 +641,8 @@ def run(run, tier, replay=None):
             jobs.append((f"census{i}", gen_census_doc(random.Random(rng.randrange(1 << 40))), rng.randrange(1 << 30)))
         for i in range(20 if tier == "quick" else 200):
             jobs.append((f"gen_document{i}", GD.gen_document(random.Random(rng.randrange(1 << 30)), pressure=(i % 3 == 0))[0], 0))
+        for l, d in prefix_docs():
+            jobs.append((l, d, 0))
         # the recorded witnesses
         ok = {"200": {"description": "ok"}}
         jobs.append(("witness:module_overwrite", {"openapi": "3.1.0", "info": {"title": "t", "version": "1"}, "components": {"schemas": {}},
